@@ -128,7 +128,7 @@ def _pool_loops(fn: FuncInfo, pool: str):
     out = []
     for lp in walk_no_nested(fn.node):
         if isinstance(lp, ast.For):
-            adds = [c for c in ast.walk(lp) if isinstance(c, ast.Call) and isinstance(c.func, ast.Attribute) and c.func.attr in ("add_task", "add_tasks")
+            adds = [c for c in ast.walk(lp) if isinstance(c, ast.Call) and isinstance(c.func, ast.Attribute) and c.func.attr in ("add_task", "add_tasks", "append")
                     and isinstance(c.func.value, ast.Name) and c.func.value.id == pool]
             if adds:
                 out.append((lp, adds))
@@ -222,6 +222,9 @@ def _order_of_expr(model, fn, e, assigns, depth):
             return sc
         if not vals:
             return "?", f"{e.id} unbound"
+        # a plain list filled by `name.append(task)` in a loop is the task pool spelled out: the order of that loop
+        if all((isinstance(v, ast.List) and not v.elts) or (isinstance(v, ast.Call) and dotted(v.func) == "list" and not v.args) for v in vals) and _pool_loops(fn, e.id):
+            return _order_of_pool(model, fn, e.id, assigns, depth)
         outs = []
         for v in vals:
             sub = dict(assigns)
